@@ -262,3 +262,31 @@ func scenarios() []hx.Scenario {
 }
 
 func TestMC(t *testing.T) { hx.Run(t, scenarios()) }
+
+// TestFIFOOracleSelf checks the trace-based FIFO oracle itself on synthetic
+// traces (no model runtime involved): it must accept FIFO hand-over and reject
+// a grant that overtakes an earlier parked call.
+func TestFIFOOracleSelf(t *testing.T) {
+	const ch = 7
+	tr := []mc.Ev{
+		{Thread: 1, Op: "send", Obj: ch}, // t1 takes the free slot
+		{Thread: 2, Op: "send", Obj: ch}, // t2 parks
+		{Thread: 3, Op: "send", Obj: ch}, // t3 parks
+		{Thread: 1, Op: "recv", Obj: ch}, // t1 unlocks
+		{Thread: 2, Op: "recv", Obj: ch},
+		{Thread: 3, Op: "recv", Obj: ch},
+		{Thread: 1, Op: "send", Obj: ch}, // free again: not blocked
+	}
+	arr := lockArrivals(tr, func(obj int) bool { return obj == ch })
+	if len(arr) != 4 || arr[0].blocked || !arr[1].blocked || !arr[2].blocked || arr[3].blocked {
+		t.Fatalf("arrivals: %+v", arr)
+	}
+	fifo := []lockCall{{1, 0}, {2, 0}, {3, 0}, {1, 1}}
+	if err := checkFIFO(arr, fifo); err != nil {
+		t.Fatalf("FIFO order rejected: %v", err)
+	}
+	overtaking := []lockCall{{1, 0}, {3, 0}, {2, 0}, {1, 1}}
+	if err := checkFIFO(arr, overtaking); err == nil {
+		t.Fatalf("overtaking grant order accepted")
+	}
+}
